@@ -231,6 +231,19 @@ func decodeResult(name string, in []byte) ([]uint64, string, error) {
 	return []uint64{rem()}, "", nil
 }
 
+// baselineFor: a sequence of connections may cost the valid minimal exchange once per connection
+func baselineFor(dec string, in []byte) uint64 {
+	b := baseline(dec)
+	if strings.HasPrefix(dec, "hq:") {
+		n := 1
+		for i := 0; i+2 <= len(in); n++ {
+			i += 2 + (int(in[i])<<8 | int(in[i+1]))
+		}
+		b *= uint64(n)
+	}
+	return b
+}
+
 // lastTerm: a Coq case term built by the decoder itself (the json decoder)
 var lastTerm string
 
@@ -265,7 +278,7 @@ func workerMain() {
 			}
 			ds = sb.String()
 		}
-		fmt.Fprintf(wr, "%s %d %d %s x%s x%s %d x%s\n", class, code, alloc, ds, hex.EncodeToString([]byte(msg)), hex.EncodeToString([]byte(extra)), baseline(f[0]), hex.EncodeToString([]byte(lastTerm)))
+		fmt.Fprintf(wr, "%s %d %d %s x%s x%s %d x%s\n", class, code, alloc, ds, hex.EncodeToString([]byte(msg)), hex.EncodeToString([]byte(extra)), baselineFor(f[0], in), hex.EncodeToString([]byte(lastTerm)))
 		lastTerm = ""
 		wr.Flush()
 	}
